@@ -43,6 +43,26 @@ def _b_sub(sim, m, a):
     return lambda: sim.broker.subtract_from_balance(t, amt) and None
 
 
+@op("broker.set_balance")
+def _b_set(sim, m, a):
+    """Broker.set_balance mid-run (a top-up whose computed amount may have gone wrong). {"restore": true} puts back what the
+    wallet held before the last such call on that token (harness-side clean-up after an accepted odd amount)."""
+    t = sim.token(a["token"])
+    saved = getattr(sim, "_saved_balance", None)
+    if saved is None:
+        saved = sim._saved_balance = {}
+    if a.get("restore"):
+        if t not in saved:
+            return None
+        old = saved.pop(t)
+        return lambda: sim.broker.set_balance(t, old) and None
+    amt = amount(sim, a.get("amount"))
+    saved[t] = sim.broker.assets[t].balance if t in sim.broker.assets else Decimal(0)
+    if a.get("as_float"):
+        amt = float(amt)
+    return lambda: sim.broker.set_balance(t, amt) and None
+
+
 def _swap_args(sim, a):
     ft, tt = sim.token(a["from"]), sim.token(a["to"])
     spec = a.get("amount")
@@ -251,6 +271,14 @@ def _two_tokens(g):
 def _(g):
     t = _some_token(g)
     return [T(O("broker.subtract", None, {"token": t, "amount": {"f": f"wallet:{t}", "x": g.rng.choice(["1.5", "1.0001", "10"]), "plus": "0.001"}}))]
+
+
+@entry("broker.set_balance:negative_amount", "broker", "invalid_argument")
+def _(g):
+    # accepted on the tree as it is (the wallet is then put back); a tree that refuses it must refuse it cleanly
+    t = _some_token(g)
+    return [T(O("broker.set_balance", None, {"token": t, "amount": {"abs": g.rng.choice(["-5", "-0.001", "-1e9"])}, "as_float": g.rng.random() < 0.3})),
+            O("broker.set_balance", None, {"token": t, "restore": True})]
 
 
 @entry("broker.subtract:token_not_in_wallet", "broker", "wallet_no_such_token")
